@@ -96,6 +96,9 @@ pub fn classify(text: &str) -> VClass {
         return VClass::Char;
     }
     let first = t.chars().next().unwrap_or(' ');
+    if t.contains(" + ") {
+        return VClass::Expr("binary");
+    }
     if first.is_ascii_digit() {
         if !t.starts_with("0x") && (t.contains('.') || t.contains('e')) {
             return VClass::Float;
@@ -585,7 +588,7 @@ impl<'a> Interp<'a> {
                                         // enum's allow_unknown_fields and no container defaults
                                         let mut pseudo = StructDecl::new(Trait::FromMeta, fields.clone());
                                         pseudo.allow_unknown = e.allow_unknown;
-                                        pseudo.rule = Rule::None;
+                                        pseudo.rule = e.eff_rule();
                                         let ps = self.fields_from_list(fields, &pseudo, &k.kids, whole);
                                         let mut ex = ps.finish(self, &pseudo).at(&name);
                                         ex.value = ex.value.map(|v| Val::Var(var.rust.clone(), Box::new(v)));
